@@ -89,7 +89,8 @@ def run_history_job(job):
         sc, ireq = ST.build_history(eng, bounds, spec)
         c0 = eng.nchecks
         dec = H.Decider(timeout_ms=opts.get('timeout_ms', 20000), seed=_W['seed'], cross_check=opts.get('cross_check', 0))
-        trails = list(ST.run_history(sc, spec, ireq))
+        per_step = [pid_ for pid_ in prop_ids if spec.get('per_step') and pid_ in P.PROPS]
+        trails = list(ST.run_history(sc, spec, ireq, final_all=bool(per_step)))
         res['explore_s'] = time.time() - t0
         res['pruning_checks'] = eng.nchecks - c0
         budget = opts.get('witness_per_spec', 12)
@@ -99,6 +100,9 @@ def run_history_job(job):
             step0 = req0.get('step') or {'kind': 'execute', 'sender': req0['sender'], 'funds': funds0, 'msg': req0['msg']}
             scen, c = H.build_replay(sc, model, step0, eng)
             for req, funds, p in trail[1:]:
+                if req.get('step'):
+                    scen['steps'].append({'kind': req['step']['kind'], 'msg': c.json(req['msg'], eng.ti, eng.serde_rename)})
+                    continue
                 scen['steps'].append({'kind': 'execute', 'sender': c.term_string(req['sender'], 'sender'), 'funds': [c.json(f, eng.ti, eng.serde_rename) for f in funds],
                                       'msg': c.json(req['msg'], eng.ti, eng.serde_rename)})
             nat = H.run_replay(scen)['steps']
@@ -108,15 +112,22 @@ def run_history_job(job):
                 diffs += ['step %d: %s' % (k, d) for d in H.compare_replay(H.predicted_result(p, c, eng), post, n)]
             return scen, nat, diffs
         for ti_, trail in enumerate(trails):
-            res['paths']['accepted_history'] += 1
+            accepted = trail[-1][2].kind == 'ok'
+            res['paths']['accepted_history' if accepted else 'history_ending_in_a_refusal'] += 1
             pc = list(trail[-1][2].pc)
             env = H.env_assumptions(sc)
             nice = H.nice_constraints(sc)
             ties = []
             for _, _, p in trail:
                 ties += H.no_tie_constraints(p.world)
-            for ob in P.c01_history(sc, trail):
-                name = 'C01:' + ob.name
+            hist_obs = [(pid_, ob) for pid_ in prop_ids if accepted and pid_ in P.HISTORY_OBLIGATIONS and not spec.get('per_step') for ob in P.HISTORY_OBLIGATIONS[pid_](sc, trail)]
+            if per_step:
+                req_l, funds_l, p_l = trail[-1]
+                view = ST.HistView(sc, ireq, trail[-2][2].world, funds_l)
+                for pid_ in per_step:
+                    hist_obs += [(pid_, ob) for ob in P.PROPS[pid_](view, req_l, p_l)]
+            for pid_, ob in hist_obs:
+                name = pid_ + ':' + ob.name
                 r, m = dec.check(pc + env + ob.neg, name)
                 res['obligations'][(name, r)] += 1
                 if len(res['samples']) < 2 and r == 'unsat':
@@ -124,12 +135,20 @@ def run_history_job(job):
                 if r == 'unknown':
                     res['unknown'].append({'obligation': name, 'spec': label, 'path': 'history'})
                 if r == 'sat':
-                    sig = {'property': 'C01', 'obligation': ob.name, 'kind': 'History', 'info': {'template': spec['name']}}
+                    sig = {'property': pid_, 'obligation': ob.name, 'kind': 'History', 'info': {'template': spec['name']}}
                     if any(v['signature'] == sig for v in res['violations']):
                         continue
                     r2, m2 = dec.check(pc + env + ob.neg + nice + ties, name + ':nice')
                     if r2 == 'sat':
                         m = m2
+                    else:
+                        real = []
+                        for _, _, p_ in trail:
+                            real += H.tie_realising_constraints(p_.world)
+                        if real:
+                            r3, m3 = dec.check(pc + env + ob.neg + nice + real, name + ':at-a-realisable-tie')
+                            if r3 == 'sat':
+                                m = m3
                     v = {'signature': sig, 'spec': label, 'path': 'ok', 'detail': None}
                     try:
                         scen, nat, diffs = replay(trail, m)
@@ -175,6 +194,8 @@ def run_spec(job):
     eng = _W['eng']
     tier = _W['tier']
     t0 = time.time()
+    if spec.get('_opts'):
+        opts = dict(opts, **spec['_opts'])          # a spec of another entry point inside a check (its own builder / runner)
     if isinstance(opts.get('builder'), str):
         from . import entry as EN
         opts = dict(opts, builder=getattr(EN, opts['builder']), runner=getattr(EN, opts['runner']))
@@ -230,6 +251,12 @@ def run_spec(job):
                         r2, m2 = dec.check(list(p.pc) + env + ob.neg + nice + H.no_tie_constraints(p.world), name + ':nice')
                         if r2 == 'sat':
                             m = m2
+                        else:
+                            real = H.tie_realising_constraints(p.world)
+                            if real:
+                                r3, m3 = dec.check(list(p.pc) + env + ob.neg + nice + real, name + ':at-a-realisable-tie')
+                                if r3 == 'sat':
+                                    m = m3
                         v = {'signature': sig, 'spec': res['spec'], 'path': p.kind, 'detail': p.detail}
                         try:
                             scen, c = H.build_replay(sc, m, step, eng)
